@@ -131,4 +131,14 @@ theorem groupcountdistinct_counts (vidx : Nat) :
     | nil => exact absurd h this
     | cons a as => simp
 
+/-- the key-less aggregate is the aggregation function applied to all the rows: one value per data row goes in
+    (so `len` gives nrows), whole rows when no value field is named -/
+theorem keyless_aggregate_sees_every_row (vidx : Option (List Nat)) :
+    (keylessValues vidx rows).length = rows.length ∧
+    (vidx = none → keylessValues vidx rows = rows.map (fun r => Val.seq false r)) := by
+  constructor
+  · unfold keylessValues
+    split <;> simp
+  · intro h; subst h; rfl
+
 end Petl.C09
